@@ -384,6 +384,23 @@ impl<'a> Ui<'a> {
         if mi != s.matches().len() {
             soft("C06", "count", format!("{what}: matched_items(..) yields {mi} items for {} matches", s.matches().len()));
         }
+        // the range accessors agree with matches(): every bound kind, forwards and backwards
+        let len = s.matches().len() as u32;
+        if len > 0 {
+            let (a, b) = (len / 3, (2 * len / 3).max(len / 3));
+            let want: Vec<*const Payload> = s.matches()[a as usize..b as usize].iter().map(|m| s.get_item(m.idx).map_or(std::ptr::null(), |it| it.data as *const Payload)).collect();
+            let got: Vec<*const Payload> = s.matched_items(a..b).map(|it| it.data as *const Payload).collect();
+            let mut got_rev: Vec<*const Payload> = s.matched_items(a..b).rev().map(|it| it.data as *const Payload).collect();
+            got_rev.reverse();
+            let got_incl: Vec<*const Payload> = if b > a { s.matched_items(a..=b - 1).map(|it| it.data as *const Payload).collect() } else { Vec::new() };
+            let tail = s.matched_items(b..).len() as u32;
+            if got != want || got_rev != want || got_incl != want || tail != len - b {
+                soft("C06", "accessor", format!("{what}: matched_items({a}..{b}) / ({a}..={}) / ({b}..) disagree with matches() (len {len})", b.wrapping_sub(1)));
+            }
+        }
+        if s.get_matched_item(len).is_some() {
+            soft("C06", "accessor", format!("{what}: get_matched_item({len}) returned an item, there are only {len} matches"));
+        }
         // clause 4: M ⊆ P ⊆ initialised items of the stream, |P| = item_count, matching members of
         // P are exactly M  ⟹  item_count + #(initialised matching items not in M) ≤ #initialised
         let candidates: Vec<u32> = match shown {
@@ -634,6 +651,7 @@ impl<'a> Ui<'a> {
         if snap_atoms != fresh_atoms {
             soft("C07", "pattern", format!("quiescent snapshot pattern [{snap_atoms}] differs from a fresh parse [{fresh_atoms}] of {:?}", self.texts));
         }
+        sim::log(format!("QUIESCENT item_count={} matches={:?}", s.item_count(), got));
         if got != want {
             let first = got.iter().zip(&want).position(|(a, b)| a != b).unwrap_or(got.len().min(want.len()));
             soft(
@@ -1202,6 +1220,41 @@ fn check_notify_visibility(w: usize) {
     if found != filled {
         soft("C13", "notify-before-visible", format!("writer{w}: notify was called during push/extend of uids {uids:?} but only {found} of them are visible"));
     }
+}
+
+/// A fault-free, sequential version of a script (writers run to completion right after they are
+/// spawned): its quiescent snapshots do not depend on the schedule, so the same script can be
+/// executed against the real rayon / parking_lot build and compared (stub fidelity).
+pub fn sequentialise(sc: &NucleoScript) -> NucleoScript {
+    let mut out = sc.clone();
+    out.event_loop = false;
+    out.gates = 0;
+    for w in out.writers.iter_mut() {
+        let mut ops = Vec::new();
+        for op in w.iter() {
+            match op {
+                WOp::Push { texts } | WOp::PushPanic { texts } => ops.push(WOp::Push { texts: texts.clone() }),
+                WOp::Extend { items, .. } if !items.is_empty() => ops.push(WOp::Extend { items: items.clone(), lie: Lie::Honest, panic_at: None }),
+                WOp::ExtendBig { n, seed } => ops.push(WOp::ExtendBig { n: *n, seed: *seed }),
+                _ => {}
+            }
+        }
+        *w = ops;
+    }
+    let mut ui = Vec::new();
+    for op in &sc.ui {
+        match op {
+            UiOp::Spawn { .. } => {
+                ui.push(op.clone());
+                ui.push(UiOp::JoinWriters);
+            }
+            UiOp::NewInjector | UiOp::CloneInjector { .. } | UiOp::DropInjector { .. } | UiOp::Reparse { .. } | UiOp::Restart { .. } | UiOp::Quiesce | UiOp::Tick { .. } => ui.push(op.clone()),
+            _ => {}
+        }
+    }
+    ui.push(UiOp::Quiesce);
+    out.ui = ui;
+    out
 }
 
 pub fn generate(rng: &mut SplitMix, focus: &str, tier_thorough: bool) -> NucleoScript {
